@@ -1,5 +1,5 @@
 (* d_inlines.ml — Model/Inlines.v: the inline parser of one block followed by postprocess_text_nodes.
-   inl <opts> <contenthex> <line_offsets a,b,..|-> <start_line> <maxref> <refsize0> <ctx n|col>
+   inl <opts> <contenthex> <line_offsets a,b,..|-> <start_line> <maxref> <refsize0> <ctx n|col> <footnotes 0/1> <ndefs> (<namehex>)*
        <nrefs> (<labelhex> <urlhex> <titlehex>)* <nchars> (<charhex> <wp> <foldhex>)*
    -> ok <refsize> <effect -|T<n|shex>:<detach 0/1>:<col>> | <postprocessed children> | <children before postprocess>
       | scope <what> | panic <site> | fuel
@@ -125,7 +125,10 @@ let rec take_refs k l acc =
 let () =
   register "inl" (fun a ->
       match a with
-      | o :: content :: lo :: sl :: maxref :: refsize0 :: ctx :: nrefs :: rest ->
+      | o :: content :: lo :: sl :: maxref :: refsize0 :: ctx :: fnon :: ndefs :: rest0 ->
+        let rec take k l acc = if k = 0 then (List.rev acc, l) else (match l with x :: r -> take (k - 1) r (bytes_of_hex x :: acc) | [] -> failwith "defs") in
+        let (defs, rest1) = take (int_of_string ndefs) rest0 [] in
+        let (nrefs, rest) = (match rest1 with x :: r -> (x, r) | [] -> failwith "nrefs") in
         let o = parse_iopts o in
         let lo = if lo = "-" then [] else List.map D_0tree.n_of_string (String.split_on_char ',' lo) in
         let (refs, rest) = take_refs (int_of_string nrefs) rest [] in
@@ -137,6 +140,7 @@ let () =
          | M.OutOfFuel -> "fuel"
          | M.Ok (M.OutOfScope w) -> "scope " ^ ocaml_string_of_coq w
          | M.Ok (M.Done (ch, rs)) ->
+           let ch = if fnon = "1" then List.map (M.fn_resolve u.M.u_fold defs) ch else ch in
            (match M.postprocess_block o ctx ch with
             | M.Panic s -> "panic " ^ ocaml_string_of_coq s ^ " | " ^ trees_string ch
             | M.OutOfFuel -> "fuel post"
